@@ -11,10 +11,25 @@ import (
 	"strings"
 )
 
-type dump map[string]string
+type kv struct{ k, v string }
 
-func dumpValue(v interface{}) dump {
-	d := dump{}
+// dump: path -> value pairs (appended while walking, sorted before comparing).
+type dump struct {
+	e      []kv
+	sorted bool
+}
+
+func (d *dump) set(k, v string) { d.e = append(d.e, kv{k, v}) }
+
+func (d *dump) sort() {
+	if !d.sorted {
+		sort.Slice(d.e, func(i, j int) bool { return d.e[i].k < d.e[j].k })
+		d.sorted = true
+	}
+}
+
+func dumpValue(v interface{}) *dump {
+	d := &dump{}
 	walk(reflect.ValueOf(v), "", d, 0)
 	return d
 }
@@ -58,41 +73,41 @@ func keyString(k reflect.Value) string {
 	if s, ok := leaf(k); ok {
 		return s
 	}
-	d := dump{}
+	d := &dump{}
 	walk(k, "", d, 0)
 	var parts []string
-	for p, x := range d {
-		parts = append(parts, p+"="+x)
+	for _, e := range d.e {
+		parts = append(parts, e.k+"="+e.v)
 	}
 	sort.Strings(parts)
 	return strings.Join(parts, ",")
 }
 
-func walk(v reflect.Value, path string, d dump, depth int) {
+func walk(v reflect.Value, path string, d *dump, depth int) {
 	if depth > 40 {
-		d[path] = "<too deep>"
+		d.set(path, "<too deep>")
 		return
 	}
 	if !v.IsValid() {
 		return
 	}
 	if s, ok := leaf(v); ok {
-		d[path] = s
+		d.set(path, s)
 		return
 	}
 	switch v.Kind() {
 	case reflect.Ptr:
 		if v.IsNil() {
-			d[path] = "<nil>"
+			d.set(path, "<nil>")
 			return
 		}
 		walk(v.Elem(), path, d, depth+1)
 	case reflect.Interface:
 		if v.IsNil() {
-			d[path] = "<nil>"
+			d.set(path, "<nil>")
 			return
 		}
-		d[path+"#type"] = v.Elem().Type().String()
+		d.set(path+"#type", v.Elem().Type().String())
 		walk(v.Elem(), path, d, depth+1)
 	case reflect.Struct:
 		t := v.Type()
@@ -129,15 +144,15 @@ func walk(v reflect.Value, path string, d dump, depth int) {
 			n++
 			walk(e, path+"["+keyString(k)+"]", d, depth+1)
 		}
-		d[path+"#len"] = fmt.Sprint(n)
+		d.set(path+"#len", fmt.Sprint(n))
 	case reflect.Slice, reflect.Array:
-		d[path+"#len"] = fmt.Sprint(v.Len())
+		d.set(path+"#len", fmt.Sprint(v.Len()))
 		if v.Len() > 64 {
-			sub := dump{}
+			sub := &dump{}
 			for i := 0; i < v.Len(); i++ {
 				walk(v.Index(i), fmt.Sprintf("[%d]", i), sub, depth+1)
 			}
-			d[path+"#hash"] = hashDump(sub)
+			d.set(path+"#hash", hashDump(sub))
 			return
 		}
 		for i := 0; i < v.Len(); i++ {
@@ -173,20 +188,26 @@ type diffEntry struct {
 }
 
 // diff returns the differing paths (sorted).
-func diffDumps(a, b dump) []diffEntry {
+func diffDumps(a, b *dump) []diffEntry {
+	a.sort()
+	b.sort()
 	var res []diffEntry
-	for p, x := range a {
-		if y, ok := b[p]; !ok {
-			res = append(res, diffEntry{p, x, "<absent>"})
-		} else if x != y {
-			res = append(res, diffEntry{p, x, y})
+	i, j := 0, 0
+	for i < len(a.e) || j < len(b.e) {
+		switch {
+		case j >= len(b.e) || (i < len(a.e) && a.e[i].k < b.e[j].k):
+			res = append(res, diffEntry{a.e[i].k, a.e[i].v, "<absent>"})
+			i++
+		case i >= len(a.e) || b.e[j].k < a.e[i].k:
+			res = append(res, diffEntry{b.e[j].k, "<absent>", b.e[j].v})
+			j++
+		default:
+			if a.e[i].v != b.e[j].v {
+				res = append(res, diffEntry{a.e[i].k, a.e[i].v, b.e[j].v})
+			}
+			i++
+			j++
 		}
 	}
-	for p, y := range b {
-		if _, ok := a[p]; !ok {
-			res = append(res, diffEntry{p, "<absent>", y})
-		}
-	}
-	sort.Slice(res, func(i, j int) bool { return res[i].Path < res[j].Path })
 	return res
 }
